@@ -365,6 +365,9 @@ func (g *gen) keyAccessorUnit(id string) *UnitCase {
 		}
 	}
 	probe := pick(r, append([]string{"", "added-later", "absent", "k0", "k1"}, vals...))
+	if len(vals) > 0 && r.chance(1, 4) {
+		probe = pick(r, neighbours(pick(r, vals))) // a near miss of a listed key
+	}
 	return &UnitCase{ID: id, Kind: "keyaccessor", Which: pick(r, []string{"target", "ctarget", "inc", "exc", "segtarget"}),
 		Mode: pick(r, []string{"plain", "pre", "pre", "pre2", "premut", "premutpre"}), Vals: vals, Probe: probe, Nil: r.chance(1, 25)}
 }
